@@ -279,7 +279,10 @@ Proof.
   { br; [|apply rwp_ret; fin]. apply rwp_modify_skel; [rel_skel|reflexivity|reflexivity|]. intros. fin. }
   intros [] u1 u2 HU BU.
   apply rwp_bind. apply (rwp_skip_non_blank cap cap_ge); [exact HU|lia|]. intros v1 v2 HV RV BV.
-  apply rwp_bind. apply (rwp_look_ch cap cap_ge); [exact HV|]. intros w1 w2 HW RW EW BW _.
+  eapply (rwp_bind_rpost 0).
+  { br; [|apply rwp_ret; fin].
+    apply (rwp_look_ch cap cap_ge); [exact HV|]. intros w1 w2 HW RW EW BW _. fin. }
+  intros c w1 w2 HW _.
   eapply (rwp_bind_rpost 0).
   { br; [|apply rwp_ret; fin].
     eapply rwp_bind_rpost; [apply H_ws; exact HW|]. intros tw x1 x2 HX BX.
@@ -293,7 +296,7 @@ Proof.
     apply rwp_bind. br; [apply rwp_panic_r|]. apply rwp_ret.
     apply rwp_bind. apply rwp_insert_token; [exact HX|reflexivity|reflexivity|]. intros y1 y2 HY _ _.
     eapply (rwp_bind_rpost 0).
-    { br; [|apply rwp_ret; fin]. br; [apply rwp_fail; reflexivity|].
+    { br; [|apply rwp_ret; fin]. br; [apply rwp_fail; reflexivity|]. br; [|apply rwp_ret; fin].
       apply rwp_insert_token; [exact HY|reflexivity|reflexivity|]. intros. fin. }
     intros [] z1 z2 HZ _.
     apply rwp_bind. apply rwp_roll_indent; [exact HZ|reflexivity|]. intros ? ? ? ? ?.
